@@ -20,6 +20,9 @@ import GeoProofs.Lemmas.MONOFuelD
 import GeoProofs.Lemmas.MONOAtPoint
 import GeoProofs.Lemmas.MONOChain
 import GeoProofs.Lemmas.MONO2Glue
+import GeoProofs.Lemmas.MONO3Glue
+import GeoProofs.Lemmas.MONO3Run
+import GeoProofs.Lemmas.MONO3Cmp
 import GeoProofs.Props.C19
 import Mathlib.Tactic.NormNum
 
@@ -583,6 +586,117 @@ example : monoPos lPiece ⟨2, 2⟩ = specPos lPiece ⟨2, 2⟩ :=
   (monotone_pieces_location_spec_partial [lShape] [⟨[⟨1,0⟩,⟨1,2⟩,⟨3,0⟩], [⟨1,0⟩,⟨3,0⟩]⟩, lPiece]
     (by decide +kernel) (by decide +kernel) ⟨2, 2⟩).1 lPiece
     (List.mem_cons_of_mem _ (List.mem_cons_self ..)) (by decide +kernel)
+
+/-! ### the structural part of ownership holds on every run (MONO3) -/
+
+open Geo.MonoBuild Geo.Proofs.MONO Geo.Proofs.MONO2 Geo.Proofs.MONO3 in
+/-- [T] for ALL inputs (valid or not, panicking or not): in the state returned by every `next_point` of the run, the
+segments reported as ending at the point are pairwise different (each segment has, at any time, at most one queued
+`LineRight` event at its current right end: `split_at` moves a right end strictly to the left and queues exactly one such
+event there, the older ones become the spurious events that `handle_event` drops — invariant `NInv`, MONO3Once/OnceB), and
+the active segment just below the point (`prev_active_from_geom`) is none of the segments reported as ending or as
+starting there (`LineOrPoint::partial_cmp(line, point) = Less` means the point is strictly to the left of the directed
+line, while an end point is collinear — MONO3Bot). These are the first two clauses of `handsB`. -/
+theorem monotone_hand_segments_distinct (ps : List Poly) :
+    ∀ r ∈ midStates (fuelFor (initState ps).segs.length) (fuelFor (initState ps).segs.length) (initState ps),
+      r.2.incoming.Nodup ∧ ∀ b, r.2.prevActive r.1 = some b → b ∉ r.2.incoming ∧ b ∉ r.2.outgoing :=
+  midStates_incoming_nodup _ _ _ (initState_sinv ps) (initState_einv ps)
+
+open Geo.MonoBuild Geo.Proofs.MONO2 Geo.Proofs.MONO3 in
+/-- [T] `monotone_pieces_wellFormed` under the chain-reference part of the ownership hypothesis only. Full statement (not
+proved): `∀ ps ms, monotoneSubdivision ps = some ms → ∀ m ∈ ms, wellFormed m = true`.
+
+`ownedRefs ps` (MONO3Glue) is `ownedSteps ps` without its structural clauses, which `monotone_hand_segments_distinct`
+proves for every input: what is left is that, for the segments whose payload `process_next_pt` reads, the chain indices
+held as `chain_idx` / as a component of a registered `help` are in range and pairwise different, a live chain held as
+`help` has its tip strictly before the point, and the `helper_chain` of the segment below is in range. -/
+theorem monotone_pieces_wellFormed_refs_partial (ps : List Poly) (ms : List MonoPoly)
+    (hown : ownedRefs ps = true) (h : monotoneSubdivision ps = some ms) :
+    ∀ m ∈ ms, wellFormed m = true :=
+  monotone_pieces_wellFormed_partial ps ms (ownedSteps_of_ownedRefs ps hown) h
+
+example : Geo.Proofs.MONO3.ownedRefs k2Witness1 = true ∧ Geo.Proofs.MONO3.ownedRefs k2Witness2 = true := by
+  decide +kernel
+
+example : ∀ m ∈ (MonoBuild.monotoneSubdivision k2Witness1).getD [], wellFormed m = true := by
+  cases h : MonoBuild.monotoneSubdivision k2Witness1 with
+  | none => simp
+  | some ms => exact monotone_pieces_wellFormed_refs_partial _ ms (by decide +kernel) h
+
+/-! ### chain-index ownership is an invariant of the run (MONO3) -/
+
+open Geo.MonoBuild Geo.Proofs.MONO2 Geo.Proofs.MONO3 in
+/-- [T] chain-index ownership, for ALL inputs (valid or not, panicking or not): in the state returned by every
+`next_point` of the run, for the segments whose payload `process_next_pt` is about to read (the segments reported as ending
+at the point, and the active segment just below it), every chain index held as `chain_idx` or as a component of a
+registered `help` is in range, no chain index is held twice (two references to one slot are the same role of the same
+segment), and the `helper_chain` of the segment below is in range.
+
+Invariant between two calls of `process_next_pt` (`RunInv`, MONO3Own): over the segments that have started and not ended
+(their `LineLeft` event is no longer queued, a queued event lies at or before their right end) the references are in range
+and pairwise different (`OwnB`). Through `next_point` (`AInv`, MONO3Keep/KeepB/KeepC): the payload of a segment that
+started before the point is not written (`split_at` keeps the payload of the cut segment; the copy it gives to the new
+segment is not counted before that segment's own `LineLeft` event, where the fix 99aa98a0 clears `help` / `helper_chain`
+and step 4 or 5 overwrites `chain_idx`), segments created by `split_at` start at or after the point, every segment whose
+left end is the point has been reported as starting. Through steps 3–5 (token view `Tok`, MONO3Tok/TokB/Steps/StepsB): the
+chain indices of the ending segments and a consumed `help` of the segment below become free tokens, `in_chains` is made of
+two different tokens (`inChains_own`), a starting segment takes a fresh index or a token, a `help` registered on the
+segment below takes both tokens; no token is handed out twice. -/
+theorem monotone_chain_ownership_invariant (ps : List Poly) :
+    ∀ r ∈ midStates (fuelFor (initState ps).segs.length) (fuelFor (initState ps).segs.length) (initState ps),
+      (∀ i ∈ handSegs r.1 r.2, ∀ (s : Seg) (a k : Nat), r.2.segs[i]? = some s → refOf s.info a = some k →
+        k < r.2.chains.length) ∧
+      (∀ i ∈ handSegs r.1 r.2, ∀ j ∈ handSegs r.1 r.2, ∀ (s t : Seg) (a b k : Nat), r.2.segs[i]? = some s →
+        r.2.segs[j]? = some t → refOf s.info a = some k → refOf t.info b = some k → i = j ∧ a = b) ∧
+      (∀ (b : Nat) (sb : Seg) (k : Nat), r.2.prevActive r.1 = some b → r.2.segs[b]? = some sb →
+        sb.info.helperChain = some k → k < r.2.chains.length) :=
+  midStates_owned ps
+
+/-- the second C10-K2 witness (a segment carrying a `help` is split): the decidable form of the same facts -/
+example : Geo.Proofs.MONO3.ownedRefs k2Witness2 = true := by decide +kernel
+
+open Geo.MonoBuild Geo.Proofs.MONO2 Geo.Proofs.MONO3 in
+/-- [T] `monotone_pieces_wellFormed` under the last remaining clause of the ownership hypothesis. Full statement (not
+proved): `∀ ps ms, monotoneSubdivision ps = some ms → ∀ m ∈ ms, wellFormed m = true`.
+
+`ownedTips ps` (MONO3Run) is the one clause of `ownedSteps ps` that is not proved as an invariant: in the state returned by
+every `next_point`, a LIVE chain held as a component of a registered `help` (by a segment ending at the point or by the
+segment below it) has its tip strictly before the point — i.e. a chain parked in a `help` cell is closed. All the other
+clauses (indices in range, no index held twice, `helper_chain` in range, ending segments reported once, the segment below
+neither ending nor starting) hold on every run by `monotone_chain_ownership_invariant` and
+`monotone_hand_segments_distinct`. What is missing for the tips is the chain-content side of the same argument (every
+live chain is closed or is the `chain_idx` chain of a started-and-not-ended segment; with no index held twice a chain held
+as `help` is then closed): steps 3–5 would have to be followed slot by slot. -/
+theorem monotone_pieces_wellFormed_tips_partial (ps : List Poly) (ms : List MonoPoly)
+    (hown : ownedTips ps = true) (h : monotoneSubdivision ps = some ms) :
+    ∀ m ∈ ms, wellFormed m = true :=
+  monotone_pieces_wellFormed_partial ps ms (ownedSteps_of_ownedTips ps hown) h
+
+example : Geo.Proofs.MONO3.ownedTips k2Witness1 = true ∧ Geo.Proofs.MONO3.ownedTips k2Witness2 = true := by
+  decide +kernel
+
+example : ∀ m ∈ (MonoBuild.monotoneSubdivision k2Witness2).getD [], wellFormed m = true := by
+  cases h : MonoBuild.monotoneSubdivision k2Witness2 with
+  | none => simp
+  | some ms => exact monotone_pieces_wellFormed_tips_partial _ ms (by decide +kernel) h
+
+open Geo.MonoBuild Geo.Proofs.MONO3 in
+/-- [T] (item 3 of MONO2, first part) `LineOrPoint::partial_cmp` never fails on two proper lines that both span a common
+sweep position (`left ≤ p < right`), nor on a proper line with `left ≤ p ≤ right` and the point `p`: the panic
+"unable to compare active segments!" of `Active::cmp` needs a segment in the active set that does not span the position at
+which it is compared. What item 3 still needs is the ORDER part (transitivity / antisymmetry of these answers for pairwise
+non-crossing segments), see the comment below. -/
+theorem active_cmp_defined_on_spanning {la ra lb rb l r p : Pt}
+    (ha1 : lexLt p la = false) (ha2 : lexLt p ra = true) (hb1 : lexLt p lb = false) (hb2 : lexLt p rb = true)
+    (h1 : lexLt p l = false) (h2 : lexLt r p = false) :
+    ((LoP.line la ra).cmp? (LoP.line lb rb)).isSome = true ∧
+    ((LoP.line l r).cmp? (LoP.point p)).isSome = true ∧ ((LoP.point p).cmp? (LoP.line l r)).isSome = true :=
+  ⟨cmp?_isSome_of_span ha1 ha2 hb1 hb2, cmp?_point_isSome_of_span h1 h2⟩
+
+example : ((MonoBuild.LoP.line ⟨0, 0⟩ ⟨4, 1⟩).cmp? (MonoBuild.LoP.line ⟨1, 2⟩ ⟨3, 5⟩)).isSome = true :=
+  (active_cmp_defined_on_spanning (p := ⟨1, 2⟩) (l := ⟨0, 0⟩) (r := ⟨4, 1⟩)
+    (by decide +kernel) (by decide +kernel) (by decide +kernel) (by decide +kernel) (by decide +kernel)
+    (by decide +kernel)).1
 
 /- NOT proved (item 3 of MONO2): for a `polyValid` polygon without holes the model does not return `none`. The
 panics of the model are: (a) `Active::cmp` on two segments that `LineOrPoint::partial_cmp` cannot order (`indexOf`,
